@@ -547,6 +547,19 @@ def slice_count_rule(chk, repo, clause):
     f, paths, _ = analyse(repo, 'field._merge_slices')
     fields = S('fields')
     nfields = {nf.app('len', fields)}
+    # ... in the order of the fields: _merge pairs them up with zip(fields, slices)
+    import ast as _ast
+    reordered = []
+    for node in _ast.walk(f.node):
+        if isinstance(node, _ast.Call):
+            nm_ = node.func.id if isinstance(node.func, _ast.Name) else (node.func.attr if isinstance(node.func, _ast.Attribute) else '')
+            if nm_ in ('sorted', 'reversed') and any(isinstance(x, _ast.Name) and x.id == 'fields' for a_ in node.args for x in _ast.walk(a_)):
+                reordered.append(f'`{_ast.unparse(node)[:50]}` at {f.loc(node)}')
+            if nm_ in ('sort', 'reverse') and isinstance(node.func, _ast.Attribute) and isinstance(node.func.value, _ast.Name) \
+                    and node.func.value.id == 'fields':
+                reordered.append(f'`{_ast.unparse(node)[:50]}` at {f.loc(node)}')
+    chk.ob(clause, 'N-sibling', f.key, 'the slices come back in the order of the fields (paired by zip in _merge)', not reordered,
+           '; '.join(reordered[:2]) + (': slices in another order than the fields they belong to' if reordered else ''), f.loc())
 
     def over_fields(seq):
         sa = seq.single_atom() if isinstance(seq, Poly) else None
